@@ -5,6 +5,6 @@ CONSTANT PartN = 0
 CONSTANT PartSubN = 0
 CONSTANT OneFileN = 0
 CONSTANT MachN = 0
-CONSTANT ProgN = 4
+CONSTANT ProgN = 3
 CONSTANT MachPaths = 7
-CONSTANT MachProgN = 3
+CONSTANT MachProgN = 2
